@@ -36,3 +36,97 @@ Proof.
   assert (H2 : N.of_nat ((12 + 0 + N.to_nat 262144) / 4 - 1) = 65538%N) by lia.
   rewrite H1, H2. vm_compute. discriminate.
 Qed.
+
+(* ---------------------------------------------------------------- the first word of every packet image *)
+
+Definition is_leaf (m : member) : bool := match m with MCompound _ => false | _ => true end.
+
+(* packet type, requested padding, and the 5-bit count / subtype / format of a configuration *)
+Definition leaf_fields (m : member) : N * N * N :=
+  match m with
+  | MSr c => (200, sr_c_padding c, N.of_nat (length (sr_c_blocks c)))
+  | MRr c => (201, rr_c_padding c, N.of_nat (length (rr_c_blocks c)))
+  | MApp c => (204, app_c_padding c, app_c_subtype c)
+  | MBye c => (203, bye_c_padding c, N.of_nat (length (bye_c_sources c)))
+  | MSdes c => (202, sdes_c_padding c, N.of_nat (length (sdes_c_chunks c)))
+  | MFb c => (match fb_c_kind c with Transport => 205 | Payload => 206 end, fb_c_padding c,
+              match fb_c_fci c with FNack _ => 1 | FPli => 1 | FSli _ => 2 | FRpsi _ _ _ => 3 | FFir _ => 4 end)
+  | MUnk c => (unk_c_type c, unk_c_padding c, unk_c_count c)
+  | MCustom c => (cu_pt c, cu_padding c, cu_count c)
+  | MCompound _ => (0, 0, 0)
+  end%N.
+
+Lemma header_app_length pt pad cnt total rest :
+  length (rfc_header pt pad cnt total ++ rest) = 4 + length rest.
+Proof. unfold rfc_header. rewrite !app_length, be16_length. cbn [length]. lia. Qed.
+
+Theorem leaf_image_starts_with_header m n :
+  is_leaf m = true -> member_wf m -> m_calc m = Ok n ->
+  exists rest, rfc_image m = rfc_header (fst (fst (leaf_fields m))) (snd (fst (leaf_fields m))) (snd (leaf_fields m)) n ++ rest.
+Proof.
+  intros Hleaf Hwf Hc.
+  destruct (member_writes_image m Hwf n Hc) as [Hlen _].
+  destruct m as [c|c|c|c|c|c|c|c|ms]; [| | | | | | | |cbn in Hleaf; discriminate Hleaf]; cbn [rfc_image leaf_fields fst snd] in *.
+  - unfold rfc_sr in *. cbv zeta in *. eexists. rewrite header_app_length in Hlen.
+    repeat rewrite ?app_length, ?be32_length, ?be64_length, ?concat_rb_length, ?rfc_trailer_length in Hlen.
+    replace n with (28 + 24 * length (sr_c_blocks c) + N.to_nat (sr_c_padding c)) by lia. reflexivity.
+  - unfold rfc_rr in *. cbv zeta in *. eexists. rewrite header_app_length in Hlen.
+    repeat rewrite ?app_length, ?be32_length, ?concat_rb_length, ?rfc_trailer_length in Hlen.
+    replace n with (8 + 24 * length (rr_c_blocks c) + N.to_nat (rr_c_padding c)) by lia. reflexivity.
+  - cbn [m_calc] in Hc. pose proof (app_calc_ok c n Hc) as Hok.
+    unfold rfc_app in *. cbv zeta in *. eexists. rewrite header_app_length in Hlen.
+    repeat rewrite ?app_length, ?be32_length, ?zeros_length, ?rfc_trailer_length in Hlen.
+    replace n with (12 + length (app_c_data c) + N.to_nat (app_c_padding c)) by lia. reflexivity.
+  - unfold rfc_bye in *. cbv zeta in *. eexists. rewrite header_app_length in Hlen.
+    repeat rewrite ?app_length, ?rfc_trailer_length in Hlen. rewrite ?app_length.
+    match goal with |- rfc_header _ _ _ ?t ++ _ = _ => replace t with n by lia end. reflexivity.
+  - unfold rfc_sdes in *. cbv zeta in *. eexists. rewrite header_app_length in Hlen.
+    repeat rewrite ?app_length, ?rfc_trailer_length in Hlen. rewrite ?app_length.
+    match goal with |- rfc_header _ _ _ ?t ++ _ = _ => replace t with n by lia end. reflexivity.
+  - unfold rfc_fb in *. cbv zeta in *. eexists. rewrite header_app_length in Hlen.
+    repeat rewrite ?app_length, ?be32_length, ?rfc_trailer_length in Hlen. rewrite ?app_length.
+    match goal with |- rfc_header _ _ _ ?t ++ _ = _ => replace t with n by lia end. reflexivity.
+  - unfold rfc_raw in *. cbv zeta in *. eexists. rewrite header_app_length in Hlen.
+    repeat rewrite ?app_length, ?rfc_trailer_length in Hlen. rewrite ?app_length.
+    match goal with |- rfc_header _ _ _ ?t ++ _ = _ => replace t with n by lia end. reflexivity.
+  - unfold rfc_raw in *. cbv zeta in *. eexists. rewrite header_app_length in Hlen.
+    repeat rewrite ?app_length, ?rfc_trailer_length in Hlen. rewrite ?app_length.
+    match goal with |- rfc_header _ _ _ ?t ++ _ = _ => replace t with n by lia end. reflexivity.
+Qed.
+
+(* the property's reading of the first 32-bit word: version 2 (the 128), the padding bit set exactly when
+   padding was requested, the count / subtype / format, the packet type, and the length in words minus one *)
+Theorem leaf_image_first_word m n :
+  is_leaf m = true -> member_wf m -> m_calc m = Ok n -> (N.of_nat n <= 262144)%N ->
+  nth 0 (rfc_image m) 0%N =
+    (128 + (if (0 <? snd (fst (leaf_fields m)))%N then 32 else 0) + snd (leaf_fields m))%N /\
+  nth 1 (rfc_image m) 0%N = fst (fst (leaf_fields m)) /\
+  length_field (rfc_image m) = N.of_nat (n / 4 - 1).
+Proof.
+  intros Hleaf Hwf Hc Hmax.
+  destruct (member_writes_image m Hwf n Hc) as [Hlen _].
+  destruct (leaf_image_starts_with_header m n Hleaf Hwf Hc) as [rest Himg].
+  rewrite Himg in Hlen |- *. rewrite header_app_length in Hlen.
+  split; [|split].
+  - unfold rfc_header. reflexivity.
+  - unfold rfc_header. reflexivity.
+  - apply rfc_header_length_field; lia.
+Qed.
+
+(* the count / subtype / format of an accepted configuration fits its five bits, so the 128 above really is
+   "version 2" and the 32 really is the padding bit *)
+Theorem accepted_count_fits_5_bits m n :
+  is_leaf m = true -> member_wf m -> m_calc m = Ok n -> (snd (leaf_fields m) < 32)%N.
+Proof.
+  intros Hleaf Hwf Hc.
+  destruct m as [c|c|c|c|c|c|c|c|ms]; [| | | | | | | |cbn in Hleaf; discriminate Hleaf];
+    cbn [m_calc leaf_fields snd member_wf] in *.
+  - apply sr_calc_ok in Hc. lia.
+  - apply rr_calc_ok in Hc. lia.
+  - apply app_calc_ok in Hc. lia.
+  - apply bye_calc_ok in Hc. lia.
+  - apply sdes_calc_ok in Hc. lia.
+  - destruct (fb_c_fci c); lia.
+  - apply unk_calc_ok in Hc. lia.
+  - lia.
+Qed.
